@@ -95,6 +95,9 @@ func (e *Env) eval(x Expr) (Val, types.Type) {
 	case *EIdent:
 		return e.ident(x.Name)
 	case *EUnary:
+		if x.Op == "&" {
+			return e.addrOf(x.X)
+		}
 		v, ty := e.eval(x.X)
 		switch x.Op {
 		case "!":
@@ -110,6 +113,8 @@ func (e *Env) eval(x Expr) (Val, types.Type) {
 				return Val{T: fmt.Sprintf("(bvneg %s)", v.T)}, ty
 			}
 			return Val{T: fmt.Sprintf("(- %s)", v.T)}, ty
+		case "&":
+			return e.fail("& applies to a field selection x.f")
 		case "*":
 			pt, ok := ty.Underlying().(*types.Pointer)
 			if !ok {
@@ -835,6 +840,11 @@ func (e *Env) locBound(b bound) (Val, types.Type) {
 				t.locPtrs = map[string]Term{}
 			}
 			pv, ok := t.locPtrs[key]
+			if fa := t.fieldAddrTerm(b.v.P); !ok && fa != "" {
+				pv, ok = fa, true
+				t.cons = append(t.cons, constraint{0, false, fmt.Sprintf("(> %s 0)", pv)})
+				t.locPtrs[key] = pv
+			}
 			if !ok {
 				pv = t.fresh("locptr", "Int")
 				t.cons = append(t.cons, constraint{0, false, fmt.Sprintf("(< %s 0)", pv)})
@@ -845,4 +855,41 @@ func (e *Env) locBound(b bound) (Val, types.Type) {
 	}
 	r, _ := t.loadPath(e.st, b.v.P)
 	return Val{T: r}, b.ty
+}
+
+// addrOf: `&x.f` - the address of a field of a heap object (uninterpreted function of object and field,
+// the same term the translation uses when such an address becomes a first-class value).
+func (e *Env) addrOf(x Expr) (Val, types.Type) {
+	sx, ok := x.(*ESelect)
+	if !ok {
+		return e.fail("& applies to a field selection x.f")
+	}
+	v, ty := e.eval(sx.X)
+	if ty == nil {
+		return e.fail("select on untyped")
+	}
+	obj, index, _ := types.LookupFieldOrMethod(ty, true, e.pkg, sx.Sel)
+	if obj == nil {
+		if n := namedOf(ty); n != nil && n.Obj().Pkg() != nil {
+			obj, index, _ = types.LookupFieldOrMethod(ty, true, n.Obj().Pkg(), sx.Sel)
+		}
+	}
+	fv, ok := obj.(*types.Var)
+	if !ok || !fv.IsField() {
+		return e.fail("no field %s in %s", sx.Sel, ty)
+	}
+	pt, ok := ty.Underlying().(*types.Pointer)
+	if !ok {
+		return e.fail("&x.f: x must be a pointer to a struct")
+	}
+	cur, cty := v.T, pt.Elem()
+	for _, fi := range index {
+		s, ok := cty.Underlying().(*types.Struct)
+		if !ok {
+			return e.fail("&x.f through a pointer-typed embedded field is unsupported")
+		}
+		cur = fmt.Sprintf("(fieldaddr %d %s)", fieldAddrID(cty, s, fi), cur)
+		cty = s.Field(fi).Type()
+	}
+	return Val{T: cur}, types.NewPointer(cty)
 }
